@@ -1025,6 +1025,16 @@ class QuantityMeta(ClassWithDefinitionMeta):
         cls = super().__new__(mcs, name, bases, clsdict,
                               define_as=define_as)
         assert isinstance(cls, QuantityMeta)
+        if define_as is not None:
+            # a class with an equivalent definition has to be rejected
+            # before the reference unit gets created and registered
+            try:
+                reg_cls = QuantityMeta._registry[define_as]
+            except KeyError:
+                pass
+            else:
+                raise ValueError("Item with same or equivalent definition "
+                                 f"already registered: '{reg_cls}'.")
         # the class needs its own map of units before the reference unit is
         # created, otherwise that unit gets registered in the map inherited
         # from the base class
